@@ -439,7 +439,12 @@ class Point(HyperbolicObject, projective.Point):
             towards `other`.
 
         """
-        diff = other.proj_data - self.proj_data
+        # use the representative of other lying in the same nappe of the
+        # light cone as the representative of self
+        products = utils.apply_bilinear(self.proj_data, other.proj_data,
+                                        self.minkowski)
+        orientation = np.expand_dims(np.where(products > 0, -1, 1), axis=-1)
+        diff = orientation * other.proj_data - self.proj_data
         return TangentVector(self, diff).normalized()
 
     def get_origin(dimension, shape=(), **kwargs):
